@@ -233,7 +233,7 @@ def undefined_functions(gb):
 
 CPROVER_BUILTINS = {"malloc", "free", "calloc", "realloc", "memcpy", "memset", "memmove", "memcmp", "strlen", "strcmp",
                     "strncmp", "strcpy", "strncpy", "strdup", "abort", "exit", "assert", "__assert_fail", "strchr",
-                    "strcat", "strncat", "strtol", "strrchr", "alloca", "__builtin_alloca", "memchr"}
+                    "strcat", "strncat", "strtol", "strrchr", "alloca", "__builtin_alloca", "memchr", "abs", "labs", "strstr", "strcspn", "strspn", "snprintf", "sprintf"}
 
 
 def unit_dir(u):
